@@ -2,7 +2,7 @@
 (* Trace validation of the item algebra: observers (C16), filling           *)
 (* variables = substitution (C09), constructors store or refuse (C12).      *)
 (* Events come from the harness drivers snap, fill, ctor.                   *)
-EXTENDS SmlPrinter, Json, TLC
+EXTENDS SmlPrinter, Ellipsis, Json, TLC
 CONSTANT ChunkSize
 Trace == ndJsonDeserialize("trace.ndjson")
 VARIABLE l
@@ -78,6 +78,19 @@ PropC09(e) == e.ev = "fill" =>
                  e.msgfill.outcome = "ok" /\ e.msgdirect.outcome = "ok" /\ e.msgfill.bytes # <<>>
                  /\ e.msgfill.bytes = e.msgdirect.bytes)
 
+\* ... through an ellipsis: the repeat counts and the values for the names the expansion generates, in one call and
+\* in two. The result is the documented expansion (Ellipsis!Spec) with the values in place; where the expansion would
+\* give one name twice (the template already holds a name of the generated shape) the fill is refused.
+PropC09e(e) == e.ev = "fillell" =>
+  LET t1 == Spec(e.tmpl.abs, e.cnt) IN
+  IF ~NoDup(Vars(t1)) THEN e.expand.outcome = "refused" /\ e.once.outcome = "refused" /\ e.steps.outcome = "refused"
+  ELSE LET ok == FillOK(t1, e.sigma, TRUE)  exp == Subst(t1, e.sigma) IN
+       /\ e.expand.outcome = "ok"
+       /\ e.once.outcome = (IF ok THEN "ok" ELSE "refused") /\ e.steps.outcome = e.once.outcome
+       /\ ok => /\ Norm(e.once.abs) = Norm(exp) \/ Norm(e.once.abs) = Norm(Subst(SpecNumbered(e.tmpl.abs, e.cnt), e.sigma))
+                /\ e.once.vars = RemainingVars(t1, e.sigma)
+                /\ Same(e.once, e.steps)
+
 \* ------------------------------------------------------------------ C12
 BinLiteral(cs) == \* ^0b[01]+$ with a value below 256
    IF Len(cs) >= 3 /\ cs[1] = 48 /\ cs[2] = 98 /\ \A i \in 3..Len(cs) : cs[i] \in {48, 49}
@@ -111,6 +124,7 @@ PropC12(e) ==
        \* no name occurs twice anywhere in a tree, however the tree comes about
        /\ e.dupsib = "refused" /\ e.dupcousin = "refused" /\ e.duprename = "refused" /\ e.dupinsert = "refused"
        /\ e.dupnest = "refused" /\ e.dupnestfill = "refused"        \* (repeat markers included)
+       /\ e.dupgen = "refused" /\ e.dupgenfill = "refused"          \* (names generated by an expansion included)
        /\ e.dupsameU = "refused" /\ e.dupsameI = "refused" /\ e.dupsameF = "refused" /\ e.dupsameB = "refused" /\ e.dupsameT = "refused"
   /\ e.ev = "ctorbounds" =>
        LET lo == e.lo  hi == e.hi
@@ -127,6 +141,6 @@ PropC12(e) ==
 
 InvC16 == l > 0 => PropC16(E)
 InvAgreeC16 == l > 0 => AgreeC16(E)
-InvC09 == l > 0 => PropC09(E)
+InvC09 == l > 0 => PropC09(E) /\ PropC09e(E)
 InvC12 == l > 0 => PropC12(E)
 =====================================================================
